@@ -1042,6 +1042,198 @@ pub fn eval<'a>(op: &Op, sh: &Shared, rs: &RunShared, tl: &mut ThreadObjs<'a>) -
             out.extend_from_slice(format!("{}", p.fq12[i % p.fq12.len()]).as_bytes());
             out.push((G1::default() == G1::zero()) as u8);
         }
+        "misc2" => {
+            // the rest of the public surface (accessors, conversions, representation arithmetic,
+            // formatting, direct calls of what the other operations reach only indirectly)
+            use ff_zeroize::PrimeFieldRepr;
+            use pairing_plus::bls12_381::{FqRepr, G1Compressed, G1Uncompressed, G2Compressed, G2Uncompressed};
+            use pairing_plus::hash_to_field::{ExpandMsg, FromRO};
+            use pairing_plus::map_to_curve::MapToCurve;
+            use pairing_plus::signum::{Sgn0Result, Signum0};
+            use std::error::Error;
+            use zeroize::Zeroize;
+            let i = a(1);
+            let fq = |k: usize| p.fq[(i + k) % p.fq.len()];
+            let fr = |k: usize| p.fr[(i + k) % p.fr.len()];
+            let fq2 = |k: usize| p.fq2[(i + k) % p.fq2.len()];
+            match a(0) % 10 {
+                0 => {
+                    // representation arithmetic (FqRepr / FrRepr)
+                    let (mut x, y) = (fq(0).into_repr(), fq(1).into_repr());
+                    x.add_nocarry(&y);
+                    out.extend_from_slice(format!("{}|{}|{}|{}|{}|{:?}", x, x.num_bits(), x.is_odd(), x.is_even(), x.is_zero(), x.cmp(&y)).as_bytes());
+                    x.sub_noborrow(&y);
+                    x.div2();
+                    x.shr(1 + (i % 70) as u32);
+                    x.mul2();
+                    x.shl(1 + (i % 130) as u32);
+                    let mut w = vec![];
+                    let _ = x.write_be(&mut w);
+                    let _ = x.write_le(&mut w);
+                    let mut z = FqRepr::default();
+                    let _ = z.read_le(&w[48..]);
+                    out.push((z == x) as u8);
+                    let _ = z.read_be(&w[..48]);
+                    out.push((z == x) as u8);
+                    out.extend_from_slice(&w);
+                    let (mut x, y) = (fr(0).into_repr(), fr(1).into_repr());
+                    x.add_nocarry(&y);
+                    x.shr((i % 200) as u32);
+                    x.mul2();
+                    x.sub_noborrow(&FrRepr::from(3u64));
+                    x.shl((i % 9) as u32);
+                    x.div2();
+                    out.extend_from_slice(format!("{}|{}|{:?}|{:?}|{:?}", x, x.num_bits(), x.cmp(&y), x.as_ref(), FrRepr::from(fr(2))).as_bytes());
+                    let mut w = vec![];
+                    let _ = x.write_le(&mut w);
+                    let mut z = FrRepr::default();
+                    let _ = z.read_le(&w[..]);
+                    z.as_mut()[0] ^= 1;
+                    out.extend_from_slice(format!("{:?}", z).as_bytes());
+                }
+                1 => {
+                    // PrimeField / SqrtField leftovers
+                    let dec = ["0", "1", "52435875175126190479447740508185965837690552500527637822603658699938581184512", "4002409555221667393417789825735904156556882819939007885332058136124031650490837864442687629129015664037894272559786", "115792089237316195423570985008687907853269984665640564039457584007913129639936", "12x", "", "007"];
+                    let d = dec[i % dec.len()];
+                    Fr::from_str(d).img(&mut out);
+                    Fq::from_str(d).img(&mut out);
+                    Fr::multiplicative_generator().img(&mut out);
+                    Fr::root_of_unity().img(&mut out);
+                    Fq::multiplicative_generator().img(&mut out);
+                    Fq::root_of_unity().img(&mut out);
+                    out.extend_from_slice(format!("{}|{}|{}|{}|{}|{}", Fr::NUM_BITS, Fr::CAPACITY, Fr::S, Fq::NUM_BITS, Fq::CAPACITY, Fq::S).as_bytes());
+                    out.extend_from_slice(format!("{:?}|{:?}|{:?}|{:?}", fr(0).legendre(), fq2(0).legendre(), fr(0).cmp(&fr(1)), fq(0).cmp(&fq(1))).as_bytes());
+                    out.extend_from_slice(format!("{:?}|{}|{}", fq2(0).cmp(&fq2(1)), fr(0).is_zero(), Fr::default() == Fr::zero()).as_bytes());
+                    let mut x = fq2(0);
+                    x.mul_by_nonresidue();
+                    x.img(&mut out);
+                }
+                2 => {
+                    // formatting
+                    out.extend_from_slice(format!("{}|{}|{}|{:?}|{:?}", fr(0), fq2(0), p.fq6[i % p.fq6.len()], p.fq6[i % p.fq6.len()], p.fq12[i % p.fq12.len()]).as_bytes());
+                    let (a1, a2) = (p.g1[i % p.g1.len()], p.g2[i % p.g2.len()]);
+                    out.extend_from_slice(format!("{}|{}|{:?}|{:?}|{:?}|{:?}", p.g1p[i % p.g1p.len()], a2, p.g1p[i % p.g1p.len()], p.g2p[i % p.g2p.len()], a1, a2).as_bytes());
+                    out.extend_from_slice(format!("{:?}|{:?}", a1.into_compressed(), a2.into_uncompressed()).as_bytes());
+                    out.extend_from_slice(format!("{:?}|{:?}", a1.into_uncompressed(), a2.into_compressed()).as_bytes());
+                    for (bytes, c) in p.enc_g1.iter().skip(i % p.enc_g1.len()).take(2) {
+                        let e = if *c {
+                            let mut e = G1Compressed::empty();
+                            if bytes.len() == G1Compressed::size() {
+                                e.as_mut().copy_from_slice(bytes);
+                            }
+                            e.into_affine().err()
+                        } else {
+                            let mut e = G1Uncompressed::empty();
+                            if bytes.len() == G1Uncompressed::size() {
+                                e.as_mut().copy_from_slice(bytes);
+                            }
+                            e.into_affine().err()
+                        };
+                        if let Some(e) = e {
+                            #[allow(deprecated)]
+                            out.extend_from_slice(format!("{}|{}", e, e.description()).as_bytes());
+                        }
+                    }
+                }
+                3 => {
+                    // accessors and conversions on points
+                    let mut pj = G1::from(p.g1[i % p.g1.len()]);
+                    let mut qj = G2::from(p.g2[i % p.g2.len()]);
+                    out.push(pj.is_zero() as u8);
+                    out.push(qj.is_zero() as u8);
+                    {
+                        let (x, y, z) = unsafe { pj.as_tuple_mut() };
+                        x.img(&mut out);
+                        y.img(&mut out);
+                        z.img(&mut out);
+                    }
+                    {
+                        let (x, y, z) = unsafe { qj.as_tuple_mut() };
+                        x.img(&mut out);
+                        y.img(&mut out);
+                        z.img(&mut out);
+                    }
+                    pj.double();
+                    qj.double();
+                    let mut pa = G1Affine::from(pj);
+                    let mut qa = G2Affine::from(qj);
+                    {
+                        let (x, y) = unsafe { pa.as_tuple_mut() };
+                        x.img(&mut out);
+                        y.img(&mut out);
+                    }
+                    {
+                        let (x, y) = unsafe { qa.as_tuple_mut() };
+                        x.img(&mut out);
+                        y.img(&mut out);
+                    }
+                    out.push((G1Affine::default() == G1Affine::zero()) as u8);
+                    out.push((G2Affine::default() == G2Affine::zero()) as u8);
+                    out.push((G2::default() == G2::zero()) as u8);
+                    out.extend_from_slice(&(G2Affine::find_pippinger_window_via_estimate(1 + i % 5000) as u64).to_le_bytes());
+                    out.extend_from_slice(format!("{}|{}|{}|{}", G1Compressed::size(), G1Uncompressed::size(), G2Compressed::size(), G2Uncompressed::size()).as_bytes());
+                    out.extend_from_slice(G1Compressed::from_affine(pa).as_ref());
+                    out.extend_from_slice(G1Uncompressed::from_affine(pa).as_ref());
+                    out.extend_from_slice(G2Compressed::from_affine(qa).as_ref());
+                    out.extend_from_slice(G2Uncompressed::from_affine(qa).as_ref());
+                }
+                4 => {
+                    // prepared elements built directly
+                    out.extend_from_slice(format!("{:?}", G1Prepared::from_affine(p.g1[i % p.g1_nsub])).as_bytes());
+                    out.extend_from_slice(&G2::prepared_image(&p.g2[i % p.g2_nsub]));
+                    out.push(G2Prepared::from_affine(p.g2[i % p.g2_nsub]).is_zero() as u8);
+                }
+                5 => {
+                    // zeroize
+                    let (mut x, mut y, mut z) = (fq(0), fr(0), fq2(0));
+                    x.zeroize();
+                    y.zeroize();
+                    z.zeroize();
+                    x.img(&mut out);
+                    y.img(&mut out);
+                    z.img(&mut out);
+                    let (mut a1, mut a2, mut p1, mut p2) = (p.g1[i % p.g1.len()], p.g2[i % p.g2.len()], p.g1p[i % p.g1p.len()], p.g2p[i % p.g2p.len()]);
+                    a1.zeroize();
+                    a2.zeroize();
+                    p1.zeroize();
+                    p2.zeroize();
+                    out.extend_from_slice(format!("{:?}|{:?}|{:?}|{:?}", a1, a2, p1, p2).as_bytes());
+                }
+                6 => {
+                    // hash_to_field into the scalar field; expand_message and from_ro called directly
+                    let (m, d) = (&p.msgs[i % p.msgs.len()][..], &p.dsts[(i / 7) % p.dsts.len()][..]);
+                    hash_to_field::<Fr, Xmd>(m, d, 1 + i % 3).iter().for_each(|x| x.img(&mut out));
+                    hash_to_field::<Fr, Xof>(m, d, 1 + i % 2).iter().for_each(|x| x.img(&mut out));
+                    let okm = <Xmd as ExpandMsg>::expand_message(m, d, 64 + i % 70);
+                    out.extend_from_slice(&okm);
+                    let okm = <Xof as ExpandMsg>::expand_message(m, d, 1 + i % 300);
+                    out.extend_from_slice(&okm);
+                    let okm = <Xmd as ExpandMsg>::expand_message(m, d, 128);
+                    <Fq as FromRO>::from_ro(GenericArray::from_slice(&okm[..64])).img(&mut out);
+                    <Fq2 as FromRO>::from_ro(GenericArray::from_slice(&okm[..128])).img(&mut out);
+                    <Fr as FromRO>::from_ro(GenericArray::from_slice(&okm[..48])).img(&mut out);
+                }
+                7 => {
+                    // map_to_curve called directly
+                    img_proj(&<G1 as MapToCurve<G1>>::map_to_curve(&fq(0)), &mut out);
+                    img_proj(&<G1 as MapToCurve<G1>>::map2_to_curve(&fq(0), &fq(1)), &mut out);
+                }
+                8 => {
+                    img_proj(&<G2 as MapToCurve<G2>>::map_to_curve(&fq2(0)), &mut out);
+                    img_proj(&<G2 as MapToCurve<G2>>::map2_to_curve(&fq2(0), &fq2(1)), &mut out);
+                }
+                _ => {
+                    // signum
+                    out.push((fq(0).sgn0() == fq2(0).sgn0()) as u8);
+                    out.extend_from_slice(format!("{:?}|{:?}", fq(0).sgn0() ^ fq2(0).sgn0(), Sgn0Result::Negative ^ fq(0).sgn0()).as_bytes());
+                    let (mut x, mut y) = (fq(1), fq2(1));
+                    x.negate_if(fq2(0).sgn0());
+                    y.negate_if(fq(0).sgn0() ^ fq2(0).sgn0());
+                    x.img(&mut out);
+                    y.img(&mut out);
+                }
+            }
+        }
         "field_random" => {
             let mut r = YRng(CoreRng(Rng::new(a(1) as u64 ^ 0x1f1f)));
             match a(0) % 5 {
